@@ -26,8 +26,8 @@ for rs in ("chained", "simple"):
     job(rs, "commit2", 3, 6)
     job(rs, "nodirect", 2, 6)
     job(rs, "nodirect", 3, 7)
-    job(rs, "gaplow", 2, 6)
-    job(rs, "gaplow", 3, 7)
+    # ("gaplow": only the link between the committed block and its child may skip views -- no Agreement violation exists within
+    #  four adversarial views after the prefix (1.9 M states explored); the known attack needs seven)
     job(rs, "gaphigh", 2, 6)
     job(rs, "gaphigh", 3, 7)
     # (a model in which a replica may vote twice in a view needs equivocation in three consecutive views before Agreement
